@@ -24,6 +24,7 @@ struct Prog {
     int inst;
     std::vector<std::vector<OpI>> threads;
     int rendezvous = 0;  // 1: the two threads meet inside their shared sections
+    bool scale = false;  // long program: no brute-force linearizability, the final value is checked instead
 };
 std::vector<Instance> g_insts;
 
@@ -83,6 +84,7 @@ void body(const Prog& p)
     if (p.rendezvous) {
         // both try forms must have succeeded: a reader is never refused because of another reader
         for (int i = 0; i < g_nhist; i++)
+            if (is_shared_op(g_hist[i].op))
             MC_CHECK(g_hist[i].kind == HK_READ, "reader-blocked-by-reader",
                      "%s returned a null handle although only another reader held the lock", opc_name[g_hist[i].op]);
     }
@@ -94,8 +96,18 @@ void body(const Prog& p)
     if (in.has(S_LOCK)) in.ops[S_LOCK](w, 0);
     else if (in.has(LOAD)) in.ops[LOAD](w, 0);
     if (in.has(X_LOCK)) in.ops[X_LOCK](w, 0);
-    const char* m = linearizable(0, -1);
-    MC_CHECK(m == nullptr, "not-linearizable", "%s", m);
+    if (!p.scale) {
+        const char* m = linearizable(0, -1);
+        MC_CHECK(m == nullptr, "not-linearizable", "%s", m);
+    } else {
+        // one writing thread: its last write is the final value, and the quiescent read above saw it
+        int last = 0;
+        for (int i = 0; i < g_nhist; i++)
+            if (g_hist[i].kind == HK_WRITE) last = g_hist[i].arg;
+        for (int i = 0; i < g_nhist; i++)
+            if (g_hist[i].fiber == 0 && g_hist[i].kind == HK_READ)
+                MC_CHECK(g_hist[i].res == last, "lost-write", "read at quiescence returned %d, the last of the queued writes was %d", g_hist[i].res, last);
+    }
     // the final stored value agrees with the object itself
     const Pair* obj = in.obj_addr(w);
     if (obj) MC_CHECK(obj->a == obj->b, "torn-final", "wrapped object ends half-written (a=%d b=%d)", obj->a, obj->b);
@@ -219,6 +231,23 @@ void make_items(const Options& o, std::vector<Item>& items)
                 for (auto& t : p.threads) sh += is_shared_op(t[0].code);
                 return sh >= 1 && sh <= 3;
             });
+        }
+        if (in.shared_capable && in.deferred) {
+            // scale: a reader keeps its handle while another thread queues many modifications and then reads too: the
+            // second reader is not blocked by the first one however long the queue is (must terminate), and the queued
+            // writes are all applied, in order, by the time of the quiescent read
+            for (int nq : {3, 10, 20}) {
+                if (nq == 20 && !thorough) continue;
+                Prog p;
+                p.inst = ii;
+                p.rendezvous = 1;
+                p.scale = true;
+                std::vector<OpI> t1;
+                for (int k = 0; k < nq; k++) t1.push_back(OpI{MOD_DETACH, 5 + k});
+                t1.push_back(OpI{S_LOCK, 0});
+                p.threads = {{OpI{S_LOCK, 0}}, t1};
+                add_item(o, items, p, 1, 2);
+            }
         }
         if (in.shared_capable) {
             // sharing: two readers meet inside their shared sections; must terminate
